@@ -67,6 +67,7 @@ pub fn drivers(spec: SpecId) -> Vec<Case> {
         blocks::incr_same_slot(spec, 3),
         blocks::coinbase_reader_after_payers(spec),
         blocks::late_write_chain(spec),
+        blocks::early_write_chain(spec),
     ]
 }
 
